@@ -1,12 +1,12 @@
-SPECIFICATION Spec
+SPECIFICATION SpecPicks
 CONSTANTS
   Size = 2
-  Triggers = {"f1", "f2"}
+  Triggers = {"f1"}
   Spawned = {"h1"}
-  Pickers = {}
-  Defect_PickOnlyEmpty = FALSE
-  Closers = {"k1", "k2"}
-  MaxFail = 2
+  Pickers = {"p1"}
+  Defect_PickOnlyEmpty = TRUE
+  Closers = {}
+  MaxFail = 1
   MaxKill = 1
   Eager = FALSE
   CloseErr = TRUE
@@ -15,5 +15,5 @@ CONSTANTS
   Defect_AddDeadConn = FALSE
   Mut = "none"
 INVARIANTS TypeOK NoSelfDeadlock FillJoin SizeBound OneFiller ClosedEmpty ReportedNotInPool NoStray NoLeakAfterClose PoolConnsAlive
-PROPERTIES FillEnds AllClosedEventually CloseReturns PoolRefilled
+PROPERTIES FillEnds Replenished
 CHECK_DEADLOCK FALSE
